@@ -12,7 +12,7 @@ from vf.grammar import FAMILIES
 from vf.snapshot import describe, same, snap
 from vf.specops import K2_OPS, K2_SET_OPS, K3_OPS, abs_same, build_k1, build_k2, build_k2_sets, build_k3, k1_ops, k2_ops, k2_set_ops, k3_ops, state_of
 from vf.stepcheck import K1_MATRIX
-from vf.sym import Ob, Violation, assume, check
+from vf.sym import Ob, Violation, assume, check, pick
 
 
 def make(tmpl, opname, attr, conform, inplace):
@@ -34,12 +34,22 @@ def make(tmpl, opname, attr, conform, inplace):
                 op = k1_ops(opname, attr, P, inplace, conform)
             elif tmpl == "K2":
                 assume(len(e) == 2)
+                if opname == "with_tags" and not inplace:
+                    # comparing two copies of a list holding an unbounded symbolic string costs ~0.6 s per path (the
+                    # twin comparison meets two distinct symbolic copies); the element comes from a pool here
+                    P["s1"] = pick(["", "a", "bb"], sel3)
                 o = build_k2(NS, P)
                 op = k2_ops(opname, P, inplace, conform)
             elif tmpl == "K2S":
                 assume(len(e) == 2)
                 o = build_k2_sets(NS, P)
                 op = k2_set_ops(opname, P, inplace, conform)
+            elif tmpl == "K5":
+                from vf.specops import build_k5, k5_ops
+
+                assume(bool(b1))  # cache filled / dependants assigned, so that invalidation has something to discard
+                o = build_k5(NS, P)
+                op = k5_ops(NS, opname, P, inplace)
             else:
                 o = build_k3(NS, P, bool(xset))
                 op = k3_ops(NS, opname, attr, P, inplace)
@@ -72,6 +82,103 @@ def make(tmpl, opname, attr, conform, inplace):
         return "ok"
 
     h.__name__ = f"C07_{tmpl}_{opname}_{attr}_{inplace}"
+    return h
+
+
+def make_special(kind):
+    """frozen status reached through inheritance / copies made during construction"""
+    from spec_classes import spec_class
+
+    from vf.sym import pick
+
+    reg = []
+
+    def classes(frozen):
+        @spec_class(frozen=frozen, bootstrap=True, do_not_copy=(kind == "frozen-do-not-copy"))
+        class A:
+            x: int = 1
+            ys: List[int] = []
+
+            def __post_init__(self):
+                if kind == "post-init-copy":
+                    reg.append(self.with_x(self.x + 1))
+                    reg.append(self.with_y(5))
+
+        @spec_class(bootstrap=True)
+        class B(A):  # re-decorated without a frozen argument: inherited
+            z: int = 2
+
+        class C(A):  # plain subclass
+            pass
+
+        @spec_class
+        class L(A):  # lazily bootstrapped re-decorated subclass
+            z: int = 2
+
+        return {"redecorated": B, "plain-subclass": C, "lazy-redecorated": L, "post-init-copy": A, "frozen-do-not-copy": A}[kind]
+
+    FZ, TW = classes(True), classes(False)
+
+    def h(v: int, w: int, op: int) -> str:
+        res = []
+        opname = pick(["setattr_x", "del_x", "with_x_inplace", "with_y_inplace", "ys_setattr", "with_x", "with_y", "reset_x", "update_x", "transform_x"], op)
+        for cls in (FZ, TW):
+            del reg[:]
+            o = cls(x=v, ys=[w])
+            if kind == "post-init-copy":
+                o = reg[0]  # the copy made while the original was still being initialised
+            s0 = snap(o)
+            try:
+                if opname == "setattr_x":
+                    o.x = w
+                    r = o
+                elif opname == "del_x":
+                    del o.x
+                    r = o
+                elif opname == "with_x_inplace":
+                    r = o.with_x(w, _inplace=True)
+                elif opname == "with_y_inplace":
+                    r = o.with_y(w, _inplace=True)
+                elif opname == "ys_setattr":
+                    o.ys = [w, w]
+                    r = o
+                elif opname == "with_x":
+                    r = o.with_x(w)
+                elif opname == "with_y":
+                    r = o.with_y(w)
+                elif opname == "reset_x":
+                    r = o.reset_x()
+                elif opname == "update_x":
+                    r = o.update(x=w)
+                else:
+                    r = o.transform_x(lambda t: t + 1)
+                exc = None
+            except Violation:
+                raise
+            except Exception as ex:
+                r, exc = None, ex
+            res.append((o, s0, r, exc))
+        (f, sf, rf, ef), (t, st, rt, et) = res
+        tag = f"C07/{kind}/{opname}"
+        check(same(snap(f), sf), "an instance of a frozen spec class never changes observably after construction", f"{tag}/frozen-changed", lambda: f"{describe(sf)} -> {describe(snap(f))} (exc {ef!r})")
+        if opname in ("setattr_x", "del_x", "with_x_inplace", "with_y_inplace", "ys_setattr"):
+            check(isinstance(ef, FrozenInstanceError), "assignment, deletion and _inplace=True helper calls raise FrozenInstanceError", f"{tag}/inplace-not-refused", lambda: f"frozen -> {ef!r}; twin -> {et!r}")
+            return "refused"
+        if kind == "frozen-do-not-copy":
+            # instances of a do_not_copy class are never copied (helpers work in place): on a frozen one a helper can only
+            # refuse, or hand out a distinct instance; the twin (which mutates itself) is no reference here
+            check(isinstance(ef, FrozenInstanceError) or (ef is None and rf is not f), "an instance of a frozen spec class never changes: a helper that cannot copy it refuses", f"{tag}/neither-refused-nor-copied", lambda: f"{ef!r} {rf!r}")
+            return "refused" if ef is not None else "ok"
+        check(ef is None and et is None, "copy-on-write helpers work on frozen instances as on the twin", f"{tag}/twin-differs/raised", lambda: f"frozen {ef!r} twin {et!r}")
+        check(rf is not f, "copy-on-write helpers return a distinct instance carrying the change", f"{tag}/returned-self")
+        check(same(snap(rf), snap(rt), ids=False), "the result carries the same state as on the twin", f"{tag}/twin-differs/state", lambda: f"frozen {describe(snap(rf))} twin {describe(snap(rt))}")
+        return "ok"
+
+    from vf.snapshot import register
+
+    for c in (FZ, TW):
+        register(c, ["x", "ys"] + (["z"] if kind in ("redecorated", "lazy-redecorated") else []))
+    h.__name__ = f"C07_special_{kind.replace('-', '_')}"
     return h
 
 
@@ -109,8 +216,17 @@ def obligations(tier):
                 if opname.startswith("setattr") and not ip:
                     continue
                 mat.append(("K3", opname, attr, True, ip))
+    from vf.specops import K5_OPS
+
+    for opname in K5_OPS:
+        for ip in (False, True):
+            if opname.startswith("setattr") and not ip:
+                continue
+            mat.append(("K5", opname, None, True, ip))
     if tier == "quick":
         mat = [m for m in mat if not (m[0] == "K1" and m[2] in ("o", "u", "lit", "f"))]
+    for kind in ("redecorated", "plain-subclass", "lazy-redecorated", "post-init-copy", "frozen-do-not-copy"):
+        obs.append(Ob(f"C07.special.{kind}", make_special(kind), [(3, 4, op) for op in range(10)], f"frozen status through {kind}: frozen class A(x, ys) and its non-frozen twin; instance of a re-decorated / plain / lazily bootstrapped subclass, or a copy made in __post_init__; assignment, deletion, _inplace helpers must be refused, copy-on-write helpers equal the twin; symbolic values", expect={"ok", "refused"}, timeout=T))
     for tmpl, opname, attr, conform, ip in mat:
         obs.append(Ob(f"C07.{tmpl}.{opname}{'.' + attr if attr else ''}.{'conf' if conform else 'illtyped'}.{'inplace' if ip else 'copy'}", make(tmpl, opname, attr, conform, ip), _warm(), f"frozen {tmpl} vs non-frozen twin built from the same symbolic leaves; operation {opname}{' on ' + attr if attr else ''}; {'_inplace=True / assignment / deletion' if ip else 'copy-on-write'}", expect=set(), timeout=T))
     return obs
